@@ -363,6 +363,8 @@ class NP:
         mt = cx.st(idx).term
         if z3.is_app(mt) and mt.decl().name() == 'cmp_eq_s' and mt.arg(0).eq(st.term):
           value = TH.setwhere_eq(st.term, mt.arg(1), sv)    # a[a == c] = s
+        else:
+          value = TH.setmask(st.term, mt, sv)               # a[mask] = s
       elif isinstance(idx, VSlice) and idx.lo is None and idx.hi is None and idx.step is None and isinstance(v, VArr):
         vs = cx.st(v)
         if vs.term is not None and vs.shape.concrete and vs.shape.rank == st.shape.rank:
@@ -921,7 +923,12 @@ def install(lib):
   ext('numpy.isfinite')(elementwise('isfinite', 'b'))
   ext('numpy.sign')(elementwise('sign'))
   ext('numpy.ceil')(elementwise('ceil', 'f'))
-  ext('numpy.conjugate')(elementwise('conj'))
+  def np_conj(cx, a, **kw):
+    if isinstance(a, VArr) and cx.st(a).kind in ('f', 'i', 'b'):
+      st = cx.st(a)
+      return cx.new(st.term, st.shape.dims, st.kind)        # the conjugate of a real array is (a copy of) itself
+    return elementwise('conj')(cx, a)
+  ext('numpy.conjugate', 'identity on real arrays')(np_conj)
 
   def np_abs(cx, a, **kw):
     return elementwise('abs')(cx, a)
